@@ -310,6 +310,11 @@ def dense_oracles(ctx, quick):
             f = rng.choice([2, -3, 0.5, -0.25, 1j, -2j, 0])
             chk('scalar*a', dvec(f * a, ops), f * va)
             chk('scalar*(scalar*a)', dvec(f * (2 * a), ops), 2 * f * va)
+            # NumPy scalars on the left go through __array_ufunc__
+            for g_ in (np.float64(-1.5), np.int64(3), np.complex128(0.3 + 0.4j), np.exp(1j * 0.7), np.float32(0.5)):
+                chk('numpy scalar (%s) * a' % type(g_).__name__, dvec(g_ * a, ops), complex(g_) * va if np.iscomplexobj(g_) else float(g_) * va, exact=False)
+                chk('a * numpy scalar (%s)' % type(g_).__name__, dvec(a * g_, ops), complex(g_) * va if np.iscomplexobj(g_) else float(g_) * va, exact=False)
+            chk('numpy complex * O', dmat(np.complex128(0.5 - 2j) * O, ops), (0.5 - 2j) * MO, exact=False)
             chk('(f*a)+b', dvec((f * a) + b, ops), f * va + vb)
             chk('O@a', dvec(O @ a, ops), MO @ va)
             chk('O@P', dmat(O @ P, ops), MO @ MP)
